@@ -81,6 +81,21 @@ def snapshot(s, kind):
 def apply_op(rp, s, kind, op):
     rps = rp.states
     del s.rec[:]
+    err = dispatch(rp, s, op)
+    return outs_of(rps, s.rec), err, list(s.rec)
+
+
+def outs_of(rps, rec):
+    outs = []
+    for uid, state, pilot, role in rec:
+        if state == rps.TMGR_SCHEDULING:              outs.append(['sched', tnum(uid)])
+        elif state == rps.TMGR_STAGING_INPUT_PENDING: outs.append(['fwd', tnum(uid), pnum(pilot)])
+        else:                                         outs.append(['other', tnum(uid), state])
+    return outs
+
+
+def dispatch(rp, s, op):
+    rps = rp.states
     err = None
     try:
         if op['op'] == 'add':
@@ -130,12 +145,112 @@ def apply_op(rp, s, kind, op):
         err = 'KeyError'
     except Exception as e:           # anything else the call lets escape (the batch it carried is then lost)
         err = type(e).__name__
-    outs = []
-    for uid, state, pilot, role in s.rec:
-        if state == rps.TMGR_SCHEDULING:              outs.append(['sched', tnum(uid)])
-        elif state == rps.TMGR_STAGING_INPUT_PENDING: outs.append(['fwd', tnum(uid), pnum(pilot)])
-        else:                                         outs.append(['other', tnum(uid), state])
-    return outs, err, list(s.rec)
+    return err
+
+
+# -- a second event handled by another thread while a backfilling pass hands its tasks on ------------------------------
+class CountLock(object):
+    """a lock that knows whether it is held (one thread drives the component here)"""
+    def __init__(self): self.depth = 0
+    def acquire(self, *a, **k): self.depth += 1; return True
+    def release(self): self.depth -= 1
+    def __enter__(self): self.depth += 1; return self
+    def __exit__(self, *a): self.depth -= 1
+
+
+def run_overlap(rp, ops, at):
+    """Backfilling: the callbacks `ops` one after the other, except that ops[at+1] is handled (as by another thread: work()
+    runs on the input thread, control_cb and the state callback on subscriber threads) at the moment the scheduling pass of
+    ops[at] hands its tasks on - inside `advance`, when the pass holds none of the scheduler's locks.  Returns per op what
+    was forwarded and the error, the final snapshot, and whether the overlap took place."""
+    rps = rp.states
+    s = make_sched(rp, 'bf')
+    locks = {}
+    for k, v in list(vars(s).items()):
+        if k.endswith('_lock'):
+            locks[k] = CountLock(); setattr(s, k, locks[k])
+    state = {'hook': None, 'in_pass': 0, 'took_place': False, 'nested': None}
+    orig_pass, rec_advance = s._schedule_tasks, s.advance
+    def sched_pass(*a, **k):
+        state['in_pass'] += 1
+        try: return orig_pass(*a, **k)
+        finally: state['in_pass'] -= 1
+    def advance(things, st=None, publish=True, push=False, **kw):
+        rec_advance(things, st, publish, push)
+        if state['hook'] is not None and state['in_pass'] == 1 and st == rps.TMGR_STAGING_INPUT_PENDING \
+           and not any(l.depth for l in locks.values()):
+            op_b, state['hook'] = state['hook'], None
+            mark = len(s.rec)
+            err = dispatch(rp, s, op_b)
+            state['nested'] = (list(s.rec[mark:]), err)
+            del s.rec[mark:]
+            state['took_place'] = True
+    s._schedule_tasks, s.advance = sched_pass, advance
+    res, j = [], 0
+    while j < len(ops):
+        if j == at and j + 1 < len(ops):
+            state['hook'] = ops[j + 1]
+            outs, err, _ = apply_op(rp, s, 'bf', ops[j])
+            res.append((outs, err))
+            if state['hook'] is None:
+                rec_b, err_b = state['nested']
+                res.append((outs_of(rps, rec_b), err_b))
+            else:
+                state['hook'] = None
+                outs, err, _ = apply_op(rp, s, 'bf', ops[j + 1]); res.append((outs, err))
+            j += 2
+        else:
+            outs, err, _ = apply_op(rp, s, 'bf', ops[j]); res.append((outs, err))
+            j += 1
+    return res, snapshot(s, 'bf'), state['took_place']
+
+
+def overlap_monitor(ops, seq, seq_snap, res, snap):
+    bad = []
+    fwd = {}
+    for k, (outs, err) in enumerate(res):
+        for o in outs:
+            if o[0] == 'fwd':
+                if o[1] in fwd:
+                    bad.append(('overlap:task-forwarded-twice', 'task %d forwarded to pilot %d and again to pilot %d' % (o[1], fwd[o[1]], o[2])))
+                fwd[o[1]] = o[2]
+    tasks = set(t['uid'] for op in ops if op['op'] == 'work' for t in op['tasks'])
+    held = set(snap['wait']) | set(e[1] for e in snap['early']) | set(fwd)
+    if not any(e for _, e in res):
+        for u in sorted(tasks - held):
+            bad.append(('overlap:task-lost', 'task %d is neither forwarded nor waiting' % u))
+    if [(sorted(map(tuple, o)), e) for o, e in res] != [(sorted(map(tuple, o)), e) for o, e in seq] or snap != seq_snap:
+        bad.append(('overlap:differs-from-the-callbacks-one-after-the-other', 'with the second callback handled while the pass hands its tasks on: %s, '
+                    'state %s; one after the other: %s, state %s' % (res, snap, seq, seq_snap)))
+    return bad
+
+
+def overlap_part(ctx, rp):
+    rng = ctx.rng
+    n = took = 0
+    scripts = [list(c) for c in OVERLAP_CORPUS] + [gen_script(rng, 'bf') for _ in range(ctx.n(250, 8000))]
+    for sc in scripts:
+        ops, res0, viol, _ = run_script(rp, 'bf', sc)
+        if viol: continue                         # (reported by the sequential part)
+        seq = [(r['outs'], r['err']) for r in res0]
+        seq_snap = res0[-1]['state'] if res0 else None
+        for at in range(len(ops) - 1):
+            if not any(o[0] == 'fwd' for o in seq[at][0]): continue       # nothing handed on in this callback
+            res, snap, tp = run_overlap(rp, ops, at)
+            n += 1; took += tp
+            ctx.case({'overlap': at, 'ops': ops}, nontrivial=tp)
+            if not tp: continue
+            for sig, what in overlap_monitor(ops, seq, seq_snap, res, snap):
+                ctx.fail(sig, what, {'kind': 'bf', 'overlap': {'ops': ops, 'at': at}})
+    ctx.obligation('Backfilling: a second callback handled by another thread while a pass hands its tasks on leaves what the two callbacks '
+                   'leave one after the other (%d overlaps tried, %d took place)' % (n, took), 'tie', took > 0, 'no overlap took place')
+
+
+OVERLAP_CORPUS = [
+    [{'op': 'add', 'pids': [0], 'cores': [2], 'stale': 0}, {'op': 'pilot_state', 'pid': 0, 'state': 'PMGR_ACTIVE'},
+     {'op': 'work', 'tasks': [{'uid': i, 'cores': 2, 'pilot': None} for i in range(4)]},
+     {'op': 'add', 'pids': [1], 'cores': [4], 'stale': 0}, {'op': 'pilot_state', 'pid': 1, 'state': 'PMGR_ACTIVE'}],
+]
 
 
 def gen_script(rng, kind):
@@ -355,6 +470,7 @@ def run(ctx):
         common.compare(ctx, 'tmgrsched', mops, impl, canon=canon,
                        what='%s scheduler: per-op forwards, errors, wait pool, early list, pilot table' %
                             ('RoundRobin' if kind == 'rr' else 'Backfilling'))
+    overlap_part(ctx, rp)
     ctx.extra['distribution'] = dist
     ctx.rule = ('random scripts of 3-14 atomic callbacks over 1-4 pilots: add (1-2 pilots, sometimes already added), remove, '
                 'pilot state notifications (any state, any order), submissions of 1-6 tasks (25% naming a pilot, known or not), '
@@ -369,6 +485,13 @@ def run(ctx):
 def replay(ctx, data):
     rp = rpload.load()
     i  = data['input']
+    if i.get('overlap'):
+        ops, res0, viol, _ = run_script(rp, 'bf', i['overlap']['ops'])
+        seq = [(r['outs'], r['err']) for r in res0]
+        res, snap, tp = run_overlap(rp, ops, i['overlap']['at'])
+        bad = overlap_monitor(ops, seq, res0[-1]['state'], res, snap) if tp else []
+        print('overlap took place:', tp); print(res); print(bad)
+        return not bad
     ops, res, viol, _ = run_script(rp, i['kind'], i['ops'])
     for r in res: print(r['outs'], r['err'])
     print(viol)
